@@ -175,7 +175,7 @@ def gating_records(job, nid):
             T = table_rows(b["table"], rid, b["viol"])
             V = vt(b["viol"], rid)
             ph = sorted(set(v["phase"] for v in b["viol"])) or [1]
-            skips = [[], [ph[0]], [1], [rnd.choice(range(1, 8))], sorted(rnd.sample(range(1, 8), 3))]
+            skips = [[], [ph[0]], [1], [7], [rnd.choice(range(1, 8))], sorted(rnd.sample(range(1, 8), 3))]
             runs = []
             for ap in (True, False):
                 for sk in skips:
